@@ -234,6 +234,10 @@ func withTaint(class string, t string) string {
 // hashDiffClass computes the sub-class of "equal values hash differently" from the failing pair
 func hashDiffClass(a, b *item) string {
 	if a.m.kind != kObj {
+		if t1, _ := taintWalk(a.m, false); t1 {
+			// the number whose decimal form has the largest exponent-19 coefficient inside int64
+			return "number-at-int64-limit-coefficient"
+		}
 		return kindName[a.m.kind]
 	}
 	if namedOrderDiffers(a.v, b.v) {
